@@ -237,6 +237,11 @@ def _explore_input(seed: int, idx: int, modes: List[str], n_qry: int, with_readb
     rng = random.Random(seed * 100003 + idx)
     if kinds == ["far"]:
         inp = far_input(rng, n_qry)
+    elif kinds == ["shortcontigs"]:
+        # many contigs only a few kb longer than the molecule cut from them, molecules given from either end: on the wrong
+        # strand the seeding correlation often has its maximum on the border (no peak at all)
+        inp = pipecases.make_input(rng, n_refs=1, n_qry=1, kinds=["exact"], small_ids=(idx % 2 == 1),
+                                   short_contigs=n_qry)
     else:
         # every 4th input is grid aligned (whole base pairs on a 100 bp lattice): equal label patterns then score exactly
         # the same (ties between rows of one query)
